@@ -127,6 +127,7 @@ class Scen:
         self.case = case
         self.loop = loop
         loop.exec_runs_cancelled = True
+        loop.exec_eager = bool(case.get("eager"))
         self.problems = []
         cfg = case["cfg"]
         self.tr = _Tr()
@@ -139,9 +140,17 @@ class Scen:
         self.errors = []
         self.jobno = {}
         self.keep = []     # keeps job tuples alive so that id() stays unique
+        # late starters begin sending when the environment says so (e.g. after another sender was cancelled)
+        self.gates = {i: loop.create_future() for i in case.get("late", ())}
         self.tasks = [loop.create_task(self.sender(i)) for i in range(len(self.programs))]
 
     async def sender(self, i):
+        if i in self.gates:
+            try:
+                await self.gates[i]
+            except asyncio.CancelledError:
+                self.cancelled[i] = True
+                raise
         for j, (kind, size, comp) in enumerate(self.programs[i]):
             data = payload(kind, size, f"{i}.{j}")
             try:
@@ -160,7 +169,9 @@ class Scen:
             if id(j) not in self.jobno:
                 self.jobno[id(j)] = len(self.jobno)
                 self.keep.append(j)
-        return [(f"exec.{self.jobno[id(j)]}", lambda j=j: self.loop.complete_exec_job(j)) for j in self.loop.exec_jobs][:3]
+        m = [(f"exec.{self.jobno[id(j)]}", lambda j=j: self.loop.complete_exec_job(j)) for j in self.loop.exec_jobs][:3]
+        m += [(f"start.t{i}", lambda g=g: g.done() or g.set_result(None)) for i, g in sorted(self.gates.items()) if not g.done()]
+        return m
 
     def faults(self):
         if "cancel" not in self.case.get("faults", ()):
@@ -328,6 +339,15 @@ def conc_cases(quick):
         }
         for nm, p in progs.items():
             out.append({"name": f"{nm}/{tag}", "cfg": cfg, "programs": p, "faults": ["cancel"], "cuts": "none"})
+        # a sender that starts later, possibly after the sender of a large message was cancelled mid-compression
+        out.append({"name": f"late-small-eager/{tag}", "cfg": cfg, "programs": [[("binary", big, None), ("text", small, None)], [("text", small, None), ("text", small + 1, None)]],
+                    "late": [1], "eager": True, "faults": ["cancel"], "cuts": "none"})
+        out.append({"name": f"big-small-eager/{tag}", "cfg": cfg, "programs": [[("binary", big, None), ("text", small, None)], [("text", small, None), ("binary", big + 1, None)]],
+                    "eager": True, "faults": ["cancel"], "cuts": "none"})
+        out.append({"name": f"late-small/{tag}", "cfg": cfg, "programs": [[("binary", big, None), ("text", small, None)], [("text", small, None), ("text", small + 1, None)]],
+                    "late": [1], "faults": ["cancel"], "cuts": "none"})
+        out.append({"name": f"late-big/{tag}", "cfg": cfg, "programs": [[("text", big, None)], [("binary", big + 2, None), ("text", small, None)]],
+                    "late": [1], "faults": ["cancel"], "cuts": "none"})
     # no compression negotiated, only per-message overrides
     out.append({"name": "override-only", "cfg": {"mask": True, "compress": 0, "notakeover": False},
                 "programs": [[("text", big, 15), ("text", small, None)], [("binary", small, 15), ("binary", big, 9)]], "faults": ["cancel"], "cuts": "none"})
@@ -343,7 +363,7 @@ def run(ctx):
     )
     ctx.assumptions += [
         "real WebSocketWriter (fixed-seed Random for masks) and WebSocketReader; transport and reader-side protocol are recording stubs",
-        "run_in_executor jobs complete atomically when the environment delivers them; a job whose awaiting task was cancelled still runs (result dropped)",
+        "run_in_executor jobs run atomically when the environment delivers their completion (default) or, in the *-eager scenarios, at submission with only the completion delivered later; a job whose awaiting task was cancelled still runs (result dropped)",
         "a cancelled sender's in-flight message may or may not be transmitted; later messages of that task are not sent",
     ]
     jobs = []
